@@ -58,11 +58,14 @@ fn problem(k: usize, backward: bool) -> (Prob, f64) {
         }
         // an interval shorter than min_step (1e-3): a lower bound on the step that cannot bind
         9 => (mk("decay on an interval of 5e-4", 1, vec![1.0], Arc::new(|_t, y, d| d[0] = -y[0])), 5e-4),
+        // a singularity at the end of the interval, approached from a start that is far from it on the scale of
+        // the end point: y' = -y/x from x0 = -1 (reflected: +1) into xend = 0, y = -1/x
+        10 => (mk("y'=-y/x into the singularity at xend=0", 1, vec![1.0], Arc::new(|t, y, d| d[0] = -y[0] / t)), 1.0),
         5 => (mk("rhs discontinuous in t", 1, vec![1.0], Arc::new(|t, y, d| d[0] = -y[0] + if t > 0.7 { 5.0 } else { 0.0 })), 2.0),
         _ => (mk("rhs discontinuous in y", 1, vec![0.0], Arc::new(|_t, y, d| d[0] = if y[0] > 0.5 { -2.0 } else { 1.0 })), 1.0),
     }
 }
-const NPROB: usize = 10;
+const NPROB: usize = 11;
 /// real eigenvalue of the inverse Radau IIA matrix as written in radau.rs (the resonance scene is
 /// only a scene: if the constant differed the run would simply not meet a singular matrix)
 const RADAU_U1: f64 = 3.637_834_252_744_496;
@@ -126,6 +129,10 @@ fn cfg_of(b: &Base) -> (Prob, Cfg) {
     let (p, t) = problem(b.prob, b.backward);
     let xend = if b.backward { -t } else { t };
     let mut c = Cfg::new(b.method, 0.0, xend, &p.y0).tol(1e-4, 1e-6);
+    if b.prob == 10 {
+        c.x0 = -xend;
+        c.xend = 0.0;
+    }
     c.max_steps = b.max_steps;
     c.min_step = b.min_step;
     c.first_step = b.first_step.map(|h| if b.backward { -h } else { h });
@@ -192,7 +199,16 @@ fn exec(b: &Base, faults: &[Fault], key: &str) -> CaseOut {
                 if k == "nonfinite" {
                     continue; // reported below with the fault in the signature
                 }
+                if b.prob == 10 && k == "covered-not-success" {
+                    // the accepted samples approach xend = 0 geometrically (to 1e-100 and closer) without the
+                    // run ever being able to cover the interval: "at xend to rounding of the interval's scale"
+                    // is not coverage here, and the non-success status is the honest one
+                    continue;
+                }
                 vs.push((format!("prefix:{}", k), m));
+            }
+            if s.status == Status::Success && c.method != Method::RK4 && faults.is_empty() && matches!(b.prob, 2 | 3 | 10) {
+                vs.push(("success-through-singularity".into(), format!("the solution does not exist up to xend, yet the run is reported as Success (last sample t = {:e}, y = {:?})", s.t.last().copied().unwrap_or(f64::NAN), s.y.last())));
             }
             if s.status == Status::Success && c.method != Method::RK4 {
                 let bad = s.y.iter().any(|row| row.iter().any(|x| !x.is_finite())) || s.t.iter().any(|x| !x.is_finite());
@@ -242,6 +258,10 @@ fn fault_sets(b: &Base, thorough: bool) -> Vec<Vec<Fault>> {
     let (p, c) = cfg_of(b);
     let nominal = run_with(&p, &c, None, None);
     let l_full = nominal.st.n_ode;
+    if b.prob == 10 && b.max_steps.is_none() {
+        // tens of thousands of ever shorter steps before the solver gives up: the fault-free run only
+        return vec![vec![]];
+    }
     let cap1 = if thorough { 4000 } else { 150 };
     let l1 = l_full.min(cap1);
     let mut v = vec![vec![]];
